@@ -1057,6 +1057,17 @@ func applyMutations(tbl *table, r *btpb.Row, muts []*btpb.Mutation, now bigtable
 			if _, ok := fs[del.FamilyName]; !ok {
 				return fmt.Errorf("unknown family %q", del.FamilyName)
 			}
+			if tsr := del.TimeRange; tsr != nil {
+				if !tbl.validTimestamp(tsr.StartTimestampMicros) {
+					return fmt.Errorf("invalid timestamp %d", tsr.StartTimestampMicros)
+				}
+				if !tbl.validTimestamp(tsr.EndTimestampMicros) && tsr.EndTimestampMicros != 0 {
+					return fmt.Errorf("invalid timestamp %d", tsr.EndTimestampMicros)
+				}
+				if tsr.StartTimestampMicros >= tsr.EndTimestampMicros && tsr.EndTimestampMicros != 0 {
+					return fmt.Errorf("inverted or invalid timestamp range [%d, %d]", tsr.StartTimestampMicros, tsr.EndTimestampMicros)
+				}
+			}
 			fam := getFamily(r, del.FamilyName)
 			if fam == nil {
 				break
@@ -1068,15 +1079,6 @@ func applyMutations(tbl *table, r *btpb.Row, muts []*btpb.Mutation, now bigtable
 			cs := col.Cells
 			if del.TimeRange != nil {
 				tsr := del.TimeRange
-				if !tbl.validTimestamp(tsr.StartTimestampMicros) {
-					return fmt.Errorf("invalid timestamp %d", tsr.StartTimestampMicros)
-				}
-				if !tbl.validTimestamp(tsr.EndTimestampMicros) && tsr.EndTimestampMicros != 0 {
-					return fmt.Errorf("invalid timestamp %d", tsr.EndTimestampMicros)
-				}
-				if tsr.StartTimestampMicros >= tsr.EndTimestampMicros && tsr.EndTimestampMicros != 0 {
-					return fmt.Errorf("inverted or invalid timestamp range [%d, %d]", tsr.StartTimestampMicros, tsr.EndTimestampMicros)
-				}
 
 				// Find half-open interval to remove.
 				// Cells are in descending timestamp order,
